@@ -1,7 +1,7 @@
 (* C02 — Parsing yields exactly the document the text denotes.
    Pinned statements only.  Model: Model/Entity.v (src/entity.rs), Model/Builder.v (src/parse.rs). *)
 From Coq Require Import List NArith.
-From XotV Require Import Model.Base Model.Interning Model.Fullname Model.Entity Model.Builder Proofs.EntityProofs Proofs.BuilderProofs.
+From XotV Require Import Model.Base Model.Interning Model.Fullname Model.Entity Model.Builder Model.Encoding Proofs.EntityProofs Proofs.BuilderProofs Proofs.EncodingProofs.
 Import ListNotations.
 Open Scope N_scope.
 
@@ -38,3 +38,37 @@ Theorem C02_cdata_sections_decode :
   forall s, cdata_decode (serialize_cdata s) = Some s.
 Proof. exact cdata_roundtrip. Qed.
 Print Assumptions C02_cdata_sections_decode.
+
+(* ---------- "supplied as bytes in a declared encoding": which label is taken (src/encoding.rs, Model/Encoding.v) ----------
+   For data in an ASCII-compatible encoding the label handed to the decoder is the value of the encoding declaration, for EVERY
+   well-formed spelling of the XML declaration: a list of pseudo-attributes (version in front, standalone behind, whatever
+   their number) each written as  S name S? '=' S? quote value quote  with any white space S, either quote per value, optional
+   white space before '?>', with or without a UTF-8 byte order mark, and WHATEVER follows the declaration (text that looks like
+   an encoding declaration further down is not looked at).  Without an encoding declaration it is the hint, and UTF-8 without
+   one.  (The decoders are encoding_rs, the sniffing of the other encodings is xhtmlchardet: third-party code, not modelled; the
+   correspondence run shows the label through the character one byte decodes to.) *)
+Theorem C02_declared_encoding_is_read_in_every_spelling :
+  forall bom p pas tl body hint,
+    Forall wf (p :: pas) -> pa_pre p <> [] -> forallb xml_s tl = true ->
+    chosen_label (with_bom bom (s_xml_open ++ flat_map render (p :: pas) ++ tl ++ 63 :: 62 :: body)) hint
+    = Some (match first_encoding (p :: pas), hint with
+            | Some l, _ => l
+            | None, Some h => h
+            | None, None => s_utf8_label
+            end).
+Proof. exact chosen_label_spec. Qed.
+Print Assumptions C02_declared_encoding_is_read_in_every_spelling.
+
+(* non-vacuity, and the cases outside the theorem: <?xml version = '1.0'\nencoding\t=\n"koi8-r" standalone= 'no' ?> followed by
+   <p encoding="x"> gives koi8-r;  <?xml version="1.0"?><!-- encoding="koi8-r" --> gives UTF-8;  <?xml-stylesheet
+   encoding="koi8-r"?> (no declaration) gives UTF-8;  UTF-16 with a byte order mark is left to the sniffer *)
+Example C02_chosen_label_example :
+  chosen_label ([60;63;120;109;108;32;118;101;114;115;105;111;110;32;61;32;39;49;46;48;39;10;101;110;99;111;100;105;110;103;9;61;10;34;107;111;105;56;45;114;34;
+                 32;115;116;97;110;100;97;108;111;110;101;61;32;39;110;111;39;32;63;62;
+                 60;112;32;101;110;99;111;100;105;110;103;61;34;120;34;62]) None = Some [107;111;105;56;45;114]
+  /\ chosen_label ([60;63;120;109;108;32;118;101;114;115;105;111;110;61;34;49;46;48;34;63;62;
+                    60;33;45;45;32;101;110;99;111;100;105;110;103;61;34;107;111;105;56;45;114;34;32;45;45;62;60;112;47;62]) None = Some s_utf8_label
+  /\ chosen_label ([60;63;120;109;108;45;115;116;121;108;101;115;104;101;101;116;32;101;110;99;111;100;105;110;103;61;34;107;111;105;56;45;114;34;63;62;60;112;47;62]) None
+     = Some s_utf8_label
+  /\ chosen_label [255; 254; 60; 0; 112; 0] None = None.
+Proof. vm_compute. repeat split. Qed.
